@@ -235,6 +235,21 @@ type algSpec struct {
 	Build func(a *A) func() error
 }
 
+// algSeqSpec: consecutive calls (the reuse monitor shares one InSitu object among them)
+type algSeqSpec struct {
+	Name     string
+	BuildSeq func(a *A) []func() error
+}
+
+func singles(specs []algSpec) []algSeqSpec {
+	r := make([]algSeqSpec, len(specs))
+	for i := range specs {
+		b := specs[i].Build
+		r[i] = algSeqSpec{specs[i].Name, func(a *A) []func() error { return []func() error{b(a)} }}
+	}
+	return r
+}
+
 var algSpecs = []algSpec{
 	{"adam.Run", func(a *A) func() error {
 		n := a.R.Range(1, 3)
@@ -767,10 +782,12 @@ type algResult struct {
 	After   string
 }
 
-func runAlg(spec algSpec, r *prng.Rand, t gen.ElemType, v int) (res algResult) {
+func runAlg(spec algSeqSpec, r *prng.Rand, t gen.ElemType, v int) (res algResult) {
 	a := &A{R: r, T: t, V: v}
-	var call func() error
-	if p := fw.Call(func() { call = spec.Build(a) }); p != nil {
+	var calls []func() error
+	if p := fw.Call(func() {
+		calls = spec.BuildSeq(a)
+	}); p != nil {
 		res.Skip = "operand-construction-panics"
 		return
 	}
@@ -793,36 +810,48 @@ func runAlg(spec algSpec, r *prng.Rand, t gen.ElemType, v int) (res algResult) {
 	if res.Opts == "" {
 		res.Opts = "default"
 	}
-	fw.SetTickBudget(20000)
-	var err error
-	p := fw.Call(func() { err = call() })
-	fw.SetTickBudget(0)
-	if p != nil && p.Budget {
-		res.Skip = "no-return"
-		return
-	}
 	res.Outcome = "returned"
-	if p != nil {
-		res.Outcome = "panicked"
-	} else if err != nil {
-		res.Outcome = "error"
-	}
-	res.First = a.ops[0].S0.Str
-	for _, o := range a.ops {
-		if d := o.changed(); d != "" {
-			res.Arg, res.Detail, res.Before, res.After = o.Name, d, clip(o.S0.Str, 400), safeString(o.cur())
+	for k, call := range calls {
+		fw.SetTickBudget(20000)
+		var err error
+		p := fw.Call(func() { err = call() })
+		fw.SetTickBudget(0)
+		if p != nil && p.Budget {
+			res.Skip = "no-return"
+			return
+		}
+		if p != nil {
+			res.Outcome = "panicked"
+		} else if err != nil && res.Outcome == "returned" {
+			res.Outcome = "error"
+		}
+		res.First = a.ops[0].S0.Str
+		// after every call all inputs - those of earlier and of later calls - must be untouched
+		for _, o := range a.ops {
+			if d := o.changed(); d != "" {
+				res.Arg, res.Detail, res.Before, res.After = o.Name, d, clip(o.S0.Str, 400), safeString(o.cur())
+				if len(calls) > 1 {
+					res.Detail = fmt.Sprintf("after call %d of %d: %s", k+1, len(calls), d)
+				}
+				return
+			}
+		}
+		if p != nil {
 			return
 		}
 	}
 	return
 }
 
-func algInputCase(cs *fw.Case) {
-	const monitor = "input.algorithm"
+func algInputCase(cs *fw.Case) { algCase(cs, "input.algorithm", singles(algSpecs)) }
+
+func algReuseCase(cs *fw.Case) { algCase(cs, "input.algorithm-reuse", algReuseSpecs) }
+
+func algCase(cs *fw.Case, monitor string, specs []algSeqSpec) {
 	i := cs.Index
-	spec := algSpecs[i%len(algSpecs)]
-	t := linTypes[(i/len(algSpecs))%4]
-	v := i / (len(algSpecs) * 4)
+	spec := specs[i%len(specs)]
+	t := linTypes[(i/len(specs))%4]
+	v := i / (len(specs) * 4)
 	res := runAlg(spec, cs.R, t, v)
 	if res.Skip != "" {
 		cs.Skip(res.Skip)
@@ -831,7 +860,7 @@ func algInputCase(cs *fw.Case) {
 	}
 	cs.Cover(monitor + ":" + spec.Name)
 	cs.Cover(monitor + ":type:" + t.Name)
-	cs.Cover("set:input.algorithm-option-cells:" + spec.Name + "/" + res.Opts)
+	cs.Cover("set:" + monitor + "-option-cells:" + spec.Name + "/" + res.Opts)
 	if res.Outcome != "returned" {
 		cs.Cover(monitor + ":call-" + res.Outcome + ":" + spec.Name)
 	}
@@ -855,4 +884,247 @@ func algInputCase(cs *fw.Case) {
 	w := map[string]any{"routine": spec.Name, "options": res.Opts, "minimal_options": opts, "operands": res.Cfg, "element_type": t.Name, "outcome": res.Outcome,
 		"operand_before": res.Before, "operand_after": res.After}
 	cs.Violation(sig(monitor, spec.Name, opts, "arg="+res.Arg, "modified"), fmt.Sprintf("input %s changed during the call (%s): %s", res.Arg, res.Outcome, res.Detail), w)
+}
+
+/* consecutive calls that reuse one InSitu object: the inputs of every earlier
+ * call must survive the later calls
+ * -------------------------------------------------------------------------- */
+
+// seq builds n calls; mk(k) prepares call k (its inputs are registered with the suffix #k).
+func (a *A) seq(mk func(k int) func() error) []func() error {
+	n := 2 + a.R.Intn(2)
+	calls := make([]func() error, n)
+	for k := range calls {
+		calls[k] = mk(k)
+	}
+	return calls
+}
+
+func tag(name string, k int) string { return fmt.Sprintf("%s#%d", name, k+1) }
+
+var algReuseSpecs = []algSeqSpec{
+	{Name: "qrAlgorithm.Run", BuildSeq: func(a *A) []func() error {
+		n := a.R.Range(1, 4)
+		inSitu := &qrAlgorithm.InSitu{InitializeH: true}
+		args := []interface{}{qrAlgorithm.Epsilon{Value: 1e-10}, inSitu}
+		if a.bit("ComputeU") {
+			args = append(args, qrAlgorithm.ComputeU{Value: true})
+		}
+		sym := a.bit("Symmetric")
+		symLater := sym
+		if a.bit("Symmetric-flipped-on-later-calls") {
+			symLater = !sym
+		}
+		return a.seq(func(k int) func() error {
+			m := a.matOf(tag("a", k), a.symVals(n), n, n)
+			s := sym
+			if k > 0 {
+				s = symLater
+			}
+			return func() error {
+				_, _, err := qrAlgorithm.Run(m, append(append([]interface{}{}, args...), qrAlgorithm.Symmetric{Value: s})...)
+				return err
+			}
+		})
+	}},
+	{Name: "eigensystem.Run", BuildSeq: func(a *A) []func() error {
+		n := a.R.Range(1, 4)
+		inSitu := &eigensystem.InSitu{}
+		inSitu.QrAlgorithm.InitializeH = true
+		args := []interface{}{inSitu}
+		if a.bit("ComputeEigenvectors{false}") {
+			args = append(args, eigensystem.ComputeEigenvectors{Value: false})
+		}
+		if a.bit("Symmetric") {
+			args = append(args, eigensystem.Symmetric{Value: true})
+		}
+		return a.seq(func(k int) func() error {
+			m := a.matOf(tag("a", k), a.symVals(n), n, n)
+			return func() error { _, _, err := eigensystem.Run(m, args...); return err }
+		})
+	}},
+	{Name: "hessenbergReduction.Run", BuildSeq: func(a *A) []func() error {
+		n := a.R.Range(1, 5)
+		args := []interface{}{&hessenbergReduction.InSitu{}}
+		if a.bit("ComputeU") {
+			args = append(args, hessenbergReduction.ComputeU{Value: true})
+		}
+		if a.bit("SetZero{false}") {
+			args = append(args, hessenbergReduction.SetZero{Value: false})
+		}
+		return a.seq(func(k int) func() error {
+			m := a.matOf(tag("a", k), a.randVals(n*n), n, n)
+			return func() error { _, _, err := hessenbergReduction.Run(m, args...); return err }
+		})
+	}},
+	{Name: "householderBidiagonalization.Run", BuildSeq: func(a *A) []func() error {
+		n := a.R.Range(1, 3)
+		mrows := n + a.R.Intn(3)
+		args := []interface{}{&householderBidiagonalization.InSitu{}}
+		if a.bit("ComputeU") {
+			args = append(args, householderBidiagonalization.ComputeU{Value: true})
+		}
+		if a.bit("ComputeV") {
+			args = append(args, householderBidiagonalization.ComputeV{Value: true})
+		}
+		return a.seq(func(k int) func() error {
+			m := a.matOf(tag("a", k), a.randVals(mrows*n), mrows, n)
+			return func() error { _, _, _, err := householderBidiagonalization.Run(m, args...); return err }
+		})
+	}},
+	{Name: "householderTridiagonalization.Run", BuildSeq: func(a *A) []func() error {
+		n := a.R.Range(1, 5)
+		args := []interface{}{&householderTridiagonalization.InSitu{}}
+		if a.bit("ComputeU") {
+			args = append(args, householderTridiagonalization.ComputeU{Value: true})
+		}
+		return a.seq(func(k int) func() error {
+			m := a.matOf(tag("a", k), a.symVals(n), n, n)
+			return func() error { _, _, err := householderTridiagonalization.Run(m, args...); return err }
+		})
+	}},
+	{Name: "svd.Run", BuildSeq: func(a *A) []func() error {
+		n := a.R.Range(1, 3)
+		mrows := n + a.R.Intn(3)
+		args := []interface{}{&svd.InSitu{}}
+		if a.bit("ComputeU") {
+			args = append(args, svd.ComputeU{Value: true})
+		}
+		if a.bit("ComputeV") {
+			args = append(args, svd.ComputeV{Value: true})
+		}
+		return a.seq(func(k int) func() error {
+			m := a.matOf(tag("a", k), a.randVals(mrows*n), mrows, n)
+			return func() error { _, _, _, err := svd.Run(m, args...); return err }
+		})
+	}},
+	{Name: "cholesky.Run", BuildSeq: func(a *A) []func() error {
+		n := a.R.Range(1, 4)
+		args := []interface{}{&cholesky.InSitu{}}
+		if a.bit("LDL") {
+			args = append(args, cholesky.LDL{Value: true})
+			if a.bit("ForcePD") {
+				args = append(args, cholesky.ForcePD{Value: true})
+			}
+		}
+		return a.seq(func(k int) func() error {
+			m := a.matOf(tag("a", k), a.spdVals(n), n, n)
+			return func() error { _, _, err := cholesky.Run(m, args...); return err }
+		})
+	}},
+	{Name: "determinant.Run", BuildSeq: func(a *A) []func() error {
+		n := a.R.Range(1, 4)
+		args := []interface{}{&determinant.InSitu{}, determinant.PositiveDefinite{Value: true}}
+		if a.bit("LogScale") {
+			args = append(args, determinant.LogScale{Value: true})
+		}
+		return a.seq(func(k int) func() error {
+			m := a.matOf(tag("a", k), a.spdVals(n), n, n)
+			return func() error { _, err := determinant.Run(m, args...); return err }
+		})
+	}},
+	{Name: "matrixInverse.Run", BuildSeq: func(a *A) []func() error {
+		n := a.R.Range(1, 4)
+		args := []interface{}{&matrixInverse.InSitu{}}
+		upper := false
+		switch {
+		case a.bit("PositiveDefinite"):
+			args = append(args, matrixInverse.PositiveDefinite{Value: true})
+		case a.bit("UpperTriangular"):
+			upper = true
+			args = append(args, matrixInverse.UpperTriangular{Value: true})
+		}
+		return a.seq(func(k int) func() error {
+			vals := a.spdVals(n)
+			if upper {
+				vals = a.upperVals(n)
+			}
+			m := a.matOf(tag("matrix", k), vals, n, n)
+			return func() error { _, err := matrixInverse.Run(m, args...); return err }
+		})
+	}},
+	{Name: "backSubstitution.Run", BuildSeq: func(a *A) []func() error {
+		n := a.R.Range(1, 4)
+		args := []interface{}{&backSubstitution.InSitu{}}
+		return a.seq(func(k int) func() error {
+			A_ := a.matOf(tag("A", k), a.upperVals(n), n, n)
+			b := a.vecOf(tag("b", k), a.T, a.randVals(n))
+			return func() error { _, err := backSubstitution.Run(A_, b, args...); return err }
+		})
+	}},
+	{Name: "gramSchmidt.Run", BuildSeq: func(a *A) []func() error {
+		n := a.R.Range(2, 4)
+		kk := a.R.Range(1, n)
+		inSitu := gramSchmidt.InSitu{Q: ad.NullDenseMatrix(a.T.T, n, kk), R: ad.NullDenseMatrix(a.T.T, n, kk)}
+		return a.seq(func(k int) func() error {
+			m := a.matOf(tag("a", k), a.randVals(n*kk), n, kk)
+			return func() error { _, _, err := gramSchmidt.Run(m, inSitu); return err }
+		})
+	}},
+	{Name: "newton.RunRoot", BuildSeq: func(a *A) []func() error {
+		n := a.R.Range(1, 3)
+		args := []interface{}{newton.MaxIterations{Value: 20}, &newton.InSitu{}}
+		if a.bit("Epsilon") {
+			args = append(args, newton.Epsilon{Value: 1e-6})
+		}
+		return a.seq(func(k int) func() error {
+			c, m := a.quadSpec(n)
+			x := a.vecOf(tag("x", k), gen.Types[5+a.R.Intn(4)], a.randVals(n))
+			f := func(x ad.ConstVector) (ad.MagicVector, error) {
+				y := ad.NullDenseReal64Vector(x.Dim())
+				for i := 0; i < x.Dim(); i++ {
+					s := y.At(i)
+					s.Sub(x.ConstAt(i), ad.ConstFloat64(m[i]))
+					s.Mul(s, ad.ConstFloat64(c[i]))
+				}
+				return y, nil
+			}
+			return func() error { _, err := newton.RunRoot(f, x, args...); return err }
+		})
+	}},
+	{Name: "newton.RunCrit/RunMin", BuildSeq: func(a *A) []func() error {
+		n := a.R.Range(1, 3)
+		args := []interface{}{newton.MaxIterations{Value: 20}, &newton.InSitu{}}
+		min := a.bit("RunMin")
+		if a.bit("HessianModification{LDL}") {
+			args = append(args, newton.HessianModification{Value: "LDL"})
+		}
+		return a.seq(func(k int) func() error {
+			c, m := a.quadSpec(n)
+			x := a.vecOf(tag("x", k), gen.Types[5+a.R.Intn(4)], a.randVals(n))
+			return func() error {
+				if min {
+					_, err := newton.RunMin(quadratic(c, m), x, args...)
+					return err
+				}
+				_, err := newton.RunCrit(quadratic(c, m), x, args...)
+				return err
+			}
+		})
+	}},
+	{Name: "saga.Run", BuildSeq: func(a *A) []func() error {
+		nS, d := a.R.Range(3, 5), a.R.Range(1, 3)
+		args := []interface{}{saga.MaxIterations{Value: 4}, saga.Gamma{Value: 0.01}, &saga.InSitu{}}
+		if a.bit("L1Regularization") {
+			args = append(args, saga.L1Regularization{Value: 0.1})
+		}
+		return a.seq(func(k int) func() error {
+			X := make([]ad.DenseFloat64Vector, nS)
+			y := make([]float64, nS)
+			for i := range X {
+				X[i] = ad.NewDenseFloat64Vector(a.randVals(d))
+				a.watch(tag(fmt.Sprintf("data[%d]", i), k), X[i])
+				y[i] = float64(a.R.Range(-4, 4))
+			}
+			theta := a.vecOf(tag("x", k), gen.Types[5+a.R.Intn(4)], a.randVals(d))
+			obj := saga.Objective1Dense(func(i int, th ad.DenseFloat64Vector) (float64, float64, ad.DenseFloat64Vector, error) {
+				s := 0.0
+				for j := range th {
+					s += th[j] * X[i][j]
+				}
+				return 0.5 * (s - y[i]) * (s - y[i]), s - y[i], X[i], nil
+			})
+			return func() error { _, _, err := saga.Run(obj, nS, theta, args...); return err }
+		})
+	}},
 }
